@@ -18,7 +18,7 @@ def configs(ctx):
 
 def run(ctx):
     sessfam.standard_run(ctx, PID, FAMILY, PROPS, configs(ctx), quick_budget=15000, thorough_budget=250000,
-                         quick_bounds={'maxIn': 3, 'maxOut': 3, 'maxEp': 1}, thorough_bounds={'maxIn': 4, 'maxOut': 4, 'maxEp': 2},
+                         quick_bounds={'maxIn': 3, 'maxOut': 3, 'maxEp': 1}, thorough_bounds={'maxIn': 3, 'maxOut': 3, 'maxEp': 1},
                          statement='first message Logon/Logout, no application traffic outside the handshake, deliveries inside the notified period, one logout notification, nothing after close')
 
 
